@@ -2,7 +2,9 @@
    sumbool, sumor map to OCaml's; nat, positive, N stay inductive. *)
 Require Extraction.
 Require Import ExtrOcamlBasic.
-From Atlas Require Import Base.Bytes Dir.DirModel Dir.DirConsumersModel.
+From Atlas Require Import Base.Bytes Dir.DirModel Dir.DirConsumersModel Dir.DirFormatsModel.
 Extraction Language OCaml.
 Extraction "model.ml" files_of newhash marshal unmarshal validate validate_store sum_ignored store_get run_ops s_atlas_sum
-  run executor_pending execute_n execute_to replay migrate_hash.
+  run executor_pending execute_n execute_to replay migrate_hash
+  format_files validate_tree write_sum_tree tree_sum archive_tree archive_store unarchive
+  checkpoint_files files_from_last_checkpoint check_dir_url.
